@@ -490,6 +490,7 @@ func main() {
 	}
 
 	var sw *setWorld
+	sobjSampled := false
 	emitSettings := func(d SDesc) {
 		if sw == nil {
 			sw = newSetWorld(f)
@@ -521,6 +522,46 @@ func main() {
 		w.Add(term, d, string(b), hasSnap && len(d.Batches) > 1)
 	}
 
+	emitSObj := func(d SODesc) {
+		if sw == nil {
+			sw = newSetWorld(f)
+		}
+		var term string
+		var stats []string
+		var nt, ok bool
+		var p interface{}
+		func() {
+			defer func() {
+				if r := recover(); r != nil {
+					p = fmt.Sprintf("%v\n%s", r, debug.Stack())
+				}
+			}()
+			term, stats, nt, ok = runSObj(f, sw, d)
+		}()
+		b, _ := json.Marshal(d)
+		if p != nil {
+			idx := w.Add("CSObj [] []", d, string(b), false)
+			w.Violation(idx, "panic", fmt.Sprint(p), d)
+			return
+		}
+		if !ok {
+			w.Stat("sobj:invalid-description-skipped")
+			return
+		}
+		for _, s := range stats {
+			w.Stat(s)
+		}
+		w.Stat(fmt.Sprintf("sobj:replicas:%d", d.P))
+		if nt {
+			w.Stat("sobj:nontrivial")
+		}
+		w.Add(term, d, string(b), nt)
+		if nt && !sobjSampled {
+			sobjSampled = true
+			samples = append(samples, d)
+		}
+	}
+
 	if o.Replay != "" {
 		for _, raw := range vlib.ReadReplay(o.Replay) {
 			var d Desc
@@ -535,6 +576,11 @@ func main() {
 				var sd SDesc
 				if err := json.Unmarshal(raw, &sd); err == nil {
 					emitSettings(sd)
+				}
+			case "sobj":
+				var sd SODesc
+				if err := json.Unmarshal(raw, &sd); err == nil {
+					emitSObj(sd)
 				}
 			}
 		}
@@ -551,10 +597,13 @@ func main() {
 		for i := 0; i < n/2; i++ {
 			emitSettings(genSettings(r.Fork(uint64(1000000 + i))))
 		}
+		for i := 0; i < n/2; i++ {
+			emitSObj(genSObj(r.Fork(uint64(2000000 + i))))
+		}
 	}
 	if os.Getenv("VERIF_C15_TIMING") != "" {
 		fmt.Fprintln(os.Stderr, "timing new/close/restart/obs:", tNew, tClose, tRestart, tObs)
 	}
-	w.Finish("history in which some id is tombstoned and afterwards put/fetch/race/head targets a tombstoned id, or a deletion is recorded at a generated stage of a fetch / put (frace: after the local lookup, before the request, response in flight, deferred storage handed out, entry of the first AddAll, after it; prace: before the tombstone check, before the creating transaction, after it; as queued or as deleted), or a stale re-delivery / restart happens while something is tombstoned; distinct by op list",
-		samples, map[string]interface{}{"generator": strings.TrimSpace("c15-v2-staged")})
+	w.Finish("history in which some id is tombstoned and afterwards put/fetch/race/head targets a tombstoned id, or a deletion is recorded at a generated stage of a fetch / put (frace: after the local lookup, before the request, response in flight, deferred storage handed out, entry of the first AddAll, after it; prace: before the tombstone check, before the creating transaction, after it; as queued or as deleted), or a stale re-delivery / restart happens while something is tombstoned; settings (linear log): has a snapshot and more than one arrival batch; sobj (branching settings log through real settings objects at 2-4 replicas): at least one listener call in Rebuild mode; distinct by op list / description",
+		samples, map[string]interface{}{"generator": strings.TrimSpace("c15-v3-staged-sobj")})
 }
